@@ -147,7 +147,7 @@ pub fn gen(prop: &str, tier: &str, seed: u64, out: &mut Vec<String>) {
                         if !t && r.chance(2, 3) {
                             continue;
                         }
-                        let fl = if r.chance(1, 3) { "fsm" } else { "sync" };
+                        let fl = *r.pick(&["sync", "sync", "fsm", "growsync", "growsync", "growfsm"]);
                         out.push(format!("obpre {} {} {n} {m} {bs} {fl}", r.pick(&pat), r.below(50)));
                     }
                 }
@@ -156,7 +156,7 @@ pub fn gen(prop: &str, tier: &str, seed: u64, out: &mut Vec<String>) {
                     let seed = r.below(50);
                     for _ in 0..r.range(2, 7) {
                         let m = n + r.below(if t { 200_000 } else { 30_000 });
-                        out.push(format!("obpre rnd {seed} {n} {m} {bs} sync"));
+                        out.push(format!("obpre rnd {seed} {n} {m} {bs} {}", if r.chance(1, 2) { "sync" } else { "growsync" }));
                         n = m;
                     }
                 }
